@@ -66,3 +66,41 @@ Example C10_ex_asobj_frame :
   let s := fst (step ser_H ser_ct no_late true s0 (AsObj 0 3)) in
   RInv s0 /\ length (heap s0) = 3 /\ length (heap s) = 5 /\ firstn 3 (heap s) = heap s0 /\ vars s = [Some 0; None; None; Some 4].
 Proof. split; [apply run_inv; apply inv_init|vm_compute; repeat split]. Qed.
+
+(* non-vacuity witnesses *)
+(* the instance (Proofs/C14Witness.v, Proofs/C10Witness.v): w10_ct = A (comparable v, non-comparable note), A2 a subclass of
+   A, B (tuple child xs, optional child one); identity digest; w10_s = the state after
+   v0 = A(1, "n"); v1 = A2(1, "n"); v2 = B(xs=(v0, v1), one=None); v3 = B(xs=(), one=v2) from init_st 5: four cells *)
+From Oak Require Import Proofs.C14Witness Proofs.C10Witness.
+(* C10_heap_frame, C10_history_frame: an existing address, a step and a four-operation history that grow the heap *)
+Theorem C10_ex_heap_frame :
+  3 < length (heap w10_s)
+  /\ length (heap (fst (step w10_H w10_ct no_late true w10_s (Dup 4 (3, 0))))) = 8
+  /\ length (heap (run w10_H w10_ct no_late true w10_s w10_more)) = 11
+  /\ firstn 4 (heap (run w10_H w10_ct no_late true w10_s w10_more)) = heap w10_s
+  /\ reg (run w10_H w10_ct no_late true w10_s w10_more) <> reg w10_s.
+Proof. exact w10_frame. Qed.
+(* C10_replace_fail_frame, C10_fail_frame, C10_fail_keeps_id: RInv, an existing cell (the A2 node), and a replace rejected
+   late (validation inherited from A), a duplicate rejected late after two copies, a replace rejected early (TypeError) *)
+Theorem C10_ex_fail :
+  RInv w10_s
+  /\ exists c, cell_at w10_s 1 = Some c /\ k_cls c = lit "A2" /\ get_any w10_s (k_id c) = Some 1
+  /\ (exists s', step w10_H w10_ct w10_late_note true w10_s w10_op_late = (s', Raised EValue)
+                 /\ length (heap s') = 5 /\ length (reg s') = 4 /\ get_any s' (k_id c) = Some 1)
+  /\ (exists s', step w10_H w10_ct w10_late_suffix true w10_s (Dup 4 (3, 0)) = (s', Raised EValue)
+                 /\ length (heap s') = 6 /\ length (reg s') = 4 /\ get_any s' (k_id c) = Some 1)
+  /\ (exists s', step w10_H w10_ct no_late true w10_s w10_op_early = (s', Raised EType)
+                 /\ length (heap s') = 4 /\ length (reg s') = 4 /\ get_any s' (k_id c) = Some 1).
+Proof. exact w10_fail. Qed.
+(* C10_deser_membership, C10_deser_frame: w10_sd = w10_s after d = v3.as_dict(); del v3, v2, v1 (only node 0 stays
+   registered), w10_v = d; both disjuncts of the premise: as_obj returns (three nodes built around the live node 0), and is
+   rejected half-way by a late validation; b = 0 is an existing address whose entry stays *)
+Theorem C10_ex_deser :
+  Inv0 w10_sd /\ length (heap w10_sd) = 4 /\ map snd (reg w10_sd) = [0] /\ sdepth w10_v = 3
+  /\ (exists s', deser w10_H w10_ct no_late true (S (sdepth w10_v)) w10_sd w10_v = DOk s' 6
+                 /\ length (heap s') = 7 /\ tree_of s' 6 = [6; 5; 0; 4] /\ map snd (reg s') = [6; 5; 4; 0])
+  /\ (exists s', deser w10_H w10_ct w10_late_v true (S (sdepth w10_v)) w10_sd w10_v = DLate s'
+                 /\ length (heap s') = 5 /\ map snd (reg s') = [4; 0])
+  /\ 0 < length (heap w10_sd)
+  /\ exists c, cell_at w10_sd 0 = Some c /\ get_any w10_sd (k_id c) = Some 0.
+Proof. exact w10_deser. Qed.
